@@ -7,6 +7,7 @@ import (
 	"go/types"
 	"os"
 	"path/filepath"
+	"regexp"
 	"sort"
 	"strings"
 
@@ -54,8 +55,18 @@ func shortID(s string) string {
 }
 
 func typeString(t types.Type) string {
-	return types.TypeString(t, func(p *types.Package) string { return shortPath(p.Path()) })
+	s := types.TypeString(t, func(p *types.Package) string { return shortPath(p.Path()) })
+	// canonical names for the predeclared aliases
+	s = aliasRe.ReplaceAllStringFunc(s, func(m string) string {
+		if m == "byte" {
+			return "uint8"
+		}
+		return "int32"
+	})
+	return s
 }
+
+var aliasRe = regexp.MustCompile(`\b(byte|rune)\b`)
 
 func loadProgram(dir string, tags string) (*Program, error) {
 	fset := token.NewFileSet()
